@@ -1,20 +1,192 @@
 package rules
 
 import (
+	"go/constant"
+	"go/token"
 	"go/types"
 	"sort"
 	"strings"
+
+	"golang.org/x/tools/go/ssa"
 
 	"verif/lint/internal/core"
 )
 
 func init() { register("C07", c07) }
 
+const accPkg = "chain/account"
+
+// logType describes one change-log type as found in the program.
+type logType struct {
+	name   string
+	val    int64
+	ctor   *ssa.Function   // NewXLog
+	redo   *ssa.Function   // registered redo
+	undo   *ssa.Function   // registered undo
+	setter []*ssa.Function // SafeAccount methods that create this log
+}
+
+func unwrapFn(v ssa.Value) *ssa.Function {
+	for {
+		switch x := v.(type) {
+		case *ssa.Function:
+			return x
+		case *ssa.ChangeType:
+			v = x.X
+		case *ssa.MakeClosure:
+			if f, ok := x.Fn.(*ssa.Function); ok {
+				return f
+			}
+			return nil
+		default:
+			return nil
+		}
+	}
+}
+
+// cacheFill: locations that only memoise what is on disk (written by getters as well); not account state.
+func cacheFill(loc string) bool {
+	for _, s := range []string{".cached.[]", ".trie", ".trieDb"} {
+		if strings.HasSuffix(loc, s) {
+			return true
+		}
+	}
+	return false
+}
+
+func collectLogTypes(c *core.Ctx) map[int64]*logType {
+	out := map[int64]*logType{}
+	clt := c.Named("chain/types.ChangeLogType")
+	stop, _ := constInt(c.Const(accPkg + ".LOG_TYPE_STOP"))
+	sc := c.Pkg(accPkg).Scope()
+	for _, n := range sc.Names() {
+		k, ok := sc.Lookup(n).(*types.Const)
+		if !ok || !types.Identical(k.Type(), clt) {
+			continue
+		}
+		v, _ := constInt(k)
+		if v <= 0 || v >= stop {
+			continue
+		}
+		out[v] = &logType{name: n, val: v}
+	}
+	// registry
+	reg := c.FuncObj("chain/types.RegisterChangeLog")
+	for _, s := range c.CallSites(reg) {
+		if core.RelPkg(s.Caller) != accPkg {
+			continue
+		}
+		a := s.Instr.Common().Args
+		k, ok := a[0].(*ssa.Const)
+		if !ok {
+			continue
+		}
+		v, _ := constant.Int64Val(constant.ToInt(k.Value))
+		lt := out[v]
+		if lt == nil {
+			continue
+		}
+		lt.redo, lt.undo = unwrapFn(a[4]), unwrapFn(a[5])
+	}
+	// constructors: functions of the package that store a constant into ChangeLog.LogType
+	ltField := c.FieldVar("chain/types.ChangeLog", "LogType")
+	for _, fn := range c.SrcFuncs {
+		if core.RelPkg(fn) != accPkg || fn.Parent() != nil || isTestHelper(c, fn) {
+			continue
+		}
+		for _, b := range fn.Blocks {
+			for _, in := range b.Instrs {
+				st, ok := in.(*ssa.Store)
+				if !ok || core.FieldOf(st.Addr) != ltField {
+					continue
+				}
+				k, ok := st.Val.(*ssa.Const)
+				if !ok {
+					continue
+				}
+				v, _ := constant.Int64Val(constant.ToInt(k.Value))
+				if lt := out[v]; lt != nil && lt.ctor == nil {
+					lt.ctor = fn
+				}
+			}
+		}
+	}
+	// setters: SafeAccount methods calling a constructor
+	safe := c.Named(accPkg + ".SafeAccount")
+	ms := types.NewMethodSet(types.NewPointer(safe))
+	for i := 0; i < ms.Len(); i++ {
+		fn := c.FuncOf(ms.At(i).Obj().(*types.Func))
+		if fn == nil || fn.Blocks == nil {
+			continue
+		}
+		for _, lt := range out {
+			if lt.ctor == nil {
+				continue
+			}
+			if len(core.CallsIn(fn, lt.ctor.Object().(*types.Func))) > 0 {
+				lt.setter = append(lt.setter, fn)
+			}
+		}
+	}
+	return out
+}
+
 func c07(c *core.Ctx) {
-	ea := core.NewEffectAnalysis(c.Program, "chain/account", "chain/types", "math/big")
-	c.Clause("C07.dbg", "debug")
-	c.Run("dbg", func() {
-		acc := c.Named("chain/account.Account")
+	ea := core.NewEffectAnalysis(c.Program, accPkg, "chain/types", "math/big")
+	lpBinding := func() core.Binding {
+		return core.Binding{Types: map[int]types.Type{1: types.NewPointer(c.Named(accPkg + ".LogProcessor"))}}
+	}
+	accName := "account.Account"
+	var lts map[int64]*logType
+	var order []int64
+	c.Clause("C07.3", "registry exhaustive: every change-log type below LOG_TYPE_STOP is registered with decoder pair, redo and undo, and has a constructor and a journalling setter")
+	c.Run("registry", func() {
+		lts = collectLogTypes(c)
+		for v := range lts {
+			order = append(order, v)
+		}
+		sort.Slice(order, func(i, j int) bool { return order[i] < order[j] })
+		rootTypes := map[string]bool{"StorageRootLog": true, "AssetCodeRootLog": true, "AssetIdRootLog": true, "EquityRootLog": true}
+		for _, v := range order {
+			lt := lts[v]
+			c.Check("registered/"+lt.name, "registry", lt.redo != nil && lt.undo != nil, token.NoPos, "%s is registered with a redo and an undo function", lt.name)
+			c.Check("constructor/"+lt.name, "registry", lt.ctor != nil, token.NoPos, "%s has a constructor that stamps the type", lt.name)
+			if rootTypes[lt.name] {
+				// root logs are pushed by Manager.Finalise next to rawAccount.Finalise (checked in C07.1)
+				continue
+			}
+			c.Check("setter/"+lt.name, "registry", len(lt.setter) >= 1, token.NoPos, "%s has a SafeAccount setter that journals it", lt.name)
+		}
+		c.Floor("log-types", len(order), 19)
+		// decoders non-nil: arguments 2 and 3 are functions
+		reg := c.FuncObj("chain/types.RegisterChangeLog")
+		n := 0
+		for _, s := range c.CallSites(reg) {
+			if core.RelPkg(s.Caller) != accPkg {
+				continue
+			}
+			a := s.Instr.Common().Args
+			n++
+			ok := unwrapFn(a[2]) != nil && unwrapFn(a[3]) != nil && unwrapFn(a[4]) != nil && unwrapFn(a[5]) != nil
+			nm := "?"
+			if k, isC := a[0].(*ssa.Const); isC {
+				v, _ := constant.Int64Val(constant.ToInt(k.Value))
+				if lt := lts[v]; lt != nil {
+					nm = lt.name
+				}
+			}
+			c.CheckTrivial("decoders/"+nm, "registry", ok, s.Instr.Pos(), "both decoders, redo and undo of %s are functions (not nil)", nm)
+		}
+		c.Floor("register-calls", n, 19)
+	})
+	if lts == nil {
+		return
+	}
+
+	// raw mutators of *Account by write set
+	acc := c.Named(accPkg + ".Account")
+	mutator := map[*types.Func]map[string]bool{}
+	c.Run("mutators", func() {
 		ms := types.NewMethodSet(types.NewPointer(acc))
 		for i := 0; i < ms.Len(); i++ {
 			f := ms.At(i).Obj().(*types.Func)
@@ -22,13 +194,758 @@ func c07(c *core.Ctx) {
 			if fn == nil || fn.Blocks == nil {
 				continue
 			}
-			w := ea.Of(fn, core.Binding{}).WritesOn("account.Account")
-			ks := core.SortedKeys(w)
-			c.Note("%s: %s", f.Name(), strings.Join(ks, ", "))
-		}
-		sort.Strings(c.Notes)
-		for _, n := range c.Notes {
-			println(n)
+			w := ea.Of(fn, core.Binding{}).WritesOn(accName)
+			state := map[string]bool{}
+			for loc := range w {
+				if !cacheFill(loc) && loc != "code" && loc != "newestRecords.[]" {
+					state[loc] = true
+				}
+			}
+			if w["code"] && len(state) > 0 {
+				state["code"] = true
+			}
+			if len(state) > 0 {
+				mutator[f] = state
+			}
 		}
 	})
+
+	c.Clause("C07.1", "journal-before-write: in every SafeAccount method each call of a raw *Account mutator (a method with a non-empty state write set) is preceded on all paths by PushChangeLog; the four root logs are pushed next to rawAccount.Finalise")
+	c.Run("journal-before-write", func() {
+		push := c.Method(accPkg+".LogProcessor", "PushChangeLog")
+		safe := c.Named(accPkg + ".SafeAccount")
+		ms := types.NewMethodSet(types.NewPointer(safe))
+		n := 0
+		for i := 0; i < ms.Len(); i++ {
+			f := ms.At(i).Obj().(*types.Func)
+			fn := c.FuncOf(f)
+			if fn == nil || fn.Blocks == nil {
+				continue
+			}
+			for _, ci := range core.AllCalls(fn) {
+				o := core.CalleeObj(ci)
+				if o == nil || mutator[o] == nil {
+					continue
+				}
+				n++
+				ok := false
+				var pushed ssa.CallInstruction
+				for _, p := range core.CallsIn(fn, push) {
+					if core.Dominates(p, ci) {
+						ok = true
+						pushed = p
+					}
+				}
+				key := "SafeAccount." + f.Name() + "→Account." + o.Name()
+				if f.Name() == "PopEvent" && o.Name() == "PopEvent" {
+					// raw pass-through kept for the commented-out undo: must be unreachable (checked in C07.2)
+					c.CheckTrivial(key, "journal-before-write", true, ci.Pos(), "raw pass-through, exempt: it has no caller (C07.2 checks that)")
+					continue
+				}
+				c.Check(key, "journal-before-write", ok, ci.Pos(), "SafeAccount.%s must push a change log before it calls the raw mutator %s", f.Name(), o.Name())
+				// the pushed log is made by a constructor
+				if pushed != nil {
+					made := false
+					for v := range core.Slice(pushed.Common().Args[len(pushed.Common().Args)-1]) {
+						if call, isCall := v.(*ssa.Call); isCall {
+							if cal := core.StaticFn(call); cal != nil {
+								for _, lt := range lts {
+									if lt.ctor == cal {
+										made = true
+									}
+								}
+							}
+						}
+					}
+					c.Check(key+":log-from-constructor", "journal-before-write", made, pushed.Pos(), "the journalled log comes from a NewXLog constructor")
+				}
+			}
+		}
+		c.Floor("safe-setter-raw-calls", n, 15)
+		// Manager.Finalise: pushes root logs
+		fin := c.Fn(accPkg + ".Manager.Finalise")
+		rf := core.CallsInDeep(fin, c.Method(accPkg+".Account", "Finalise"))
+		c.Check("Manager.Finalise→rawAccount.Finalise", "must-call", len(rf) >= 1, fin.Pos(), "Manager.Finalise finalises the raw accounts")
+		nroot := 0
+		for _, nm := range []string{"StorageRootLog", "AssetCodeRootLog", "AssetIdRootLog", "EquityRootLog"} {
+			for _, lt := range lts {
+				if lt.name == nm && lt.ctor != nil {
+					calls := core.CallsInDeep(fin, lt.ctor.Object().(*types.Func))
+					if len(calls) == 0 {
+						// maybe inside a helper of the same package
+						for _, ci := range core.AllCalls(fin) {
+							if h := core.StaticFn(ci); h != nil && core.RelPkg(h) == accPkg {
+								calls = append(calls, core.CallsInDeep(h, lt.ctor.Object().(*types.Func))...)
+							}
+						}
+					}
+					if c.Check("Manager.Finalise→"+nm, "must-call", len(calls) >= 1, fin.Pos(), "the root change log %s is created during Finalise", nm) {
+						nroot++
+					}
+				}
+			}
+		}
+		c.Floor("root-logs", nroot, 4)
+	})
+
+	c.Clause("C07.2", "raw mutators are unreachable from execution code: they are called only inside package account; accounts handed out are SafeAccounts; nobody outside asserts an accessor to *Account; the raw PopEvent pass-through has no caller")
+	c.Run("raw-unreachable", func() {
+		var muts []*types.Func
+		for m := range mutator {
+			muts = append(muts, m)
+		}
+		n := 0
+		for _, s := range c.CallSites(muts...) {
+			if isTestHelper(c, s.Caller) {
+				continue
+			}
+			// only direct calls on *Account count here (interface calls resolve to what Manager hands out, checked below)
+			if s.Instr.Common().IsInvoke() {
+				continue
+			}
+			o := core.CalleeObj(s.Instr)
+			if recvNamed(o) != acc.Obj() {
+				continue
+			}
+			n++
+			c.Check("raw-call@"+shortFn(core.Outer(s.Caller)), "who-may-call", core.RelPkg(s.Caller) == accPkg, s.Instr.Pos(), "raw mutator Account.%s is called from %s, outside package account", o.Name(), shortFn(s.Caller))
+		}
+		c.Floor("raw-call-sites", n, 27)
+		// type assertions to *Account outside the package
+		bad := 0
+		scanned := 0
+		for _, fn := range c.SrcFuncs {
+			rel := core.RelPkg(fn)
+			if rel == accPkg || isTestHelper(c, fn) {
+				continue
+			}
+			for _, b := range fn.Blocks {
+				for _, in := range b.Instrs {
+					scanned++
+					if ta, ok := in.(*ssa.TypeAssert); ok {
+						if p, isP := ta.AssertedType.(*types.Pointer); isP {
+							if nn, isN := p.Elem().(*types.Named); isN && nn.Obj() == acc.Obj() {
+								bad++
+								c.Check("assert-to-raw@"+shortFn(fn), "who-may-call", false, ta.Pos(), "%s asserts an account accessor to *account.Account and so escapes the journal", shortFn(fn))
+							}
+						}
+					}
+				}
+			}
+		}
+		c.Check("assert-to-raw/scan", "who-may-call", bad == 0 && scanned > 10000, token.NoPos, "no type assertion to *account.Account outside package account (%d instructions scanned)", scanned)
+		// Manager.GetAccount hands out *SafeAccount
+		ga := c.Fn(accPkg + ".Manager.GetAccount")
+		okRet := true
+		nret := 0
+		for _, r := range core.Returns(ga) {
+			v := core.RetVal(r, 0)
+			for x := range core.Slice(v) {
+				if mi, isMI := x.(*ssa.MakeInterface); isMI && types.IsInterface(mi.Type()) {
+					nret++
+					if namedPtr(mi.X.Type()) != "SafeAccount" {
+						okRet = false
+					}
+				}
+			}
+		}
+		c.Check("Manager.GetAccount:returns-SafeAccount", "value-flow", okRet && nret >= 1, ga.Pos(), "every accessor handed out by Manager.GetAccount is a journalling SafeAccount (%d conversions)", nret)
+		// PopEvent pass-through: no caller; positive control: PushEvent has callers
+		pop := c.Method(accPkg+".SafeAccount", "PopEvent")
+		popI := c.Method("chain/types.AccountAccessor", "PopEvent")
+		npop := 0
+		for _, s := range c.CallSites(pop, popI) {
+			if isTestHelper(c, s.Caller) {
+				continue
+			}
+			// the pass-through itself calls the raw method
+			if s.Caller == c.FuncOf(pop) {
+				continue
+			}
+			npop++
+		}
+		_, pushSites := callersOf(c, c.Method("chain/types.AccountAccessor", "PushEvent"))
+		c.Check("PopEvent:no-caller", "who-may-call", npop == 0 && len(pushSites) > 0, token.NoPos, "the un-journalled PopEvent has %d callers (PushEvent, the positive control, has %d)", npop, len(pushSites))
+	})
+
+	c.Clause("C07.4", "undo covers do: every account-state location a journalling setter writes is written by the registered undo of its log type (or by RevertToSnapshot itself); redo writes what the setter writes")
+	c.Run("undo-covers-do", func() {
+		rev := c.Fn(accPkg + ".LogProcessor.RevertToSnapshot")
+		own := ea.Of(rev, core.Binding{}).WritesOn(accName)
+		c.Check("RevertToSnapshot:restores-provisional-version", "effects", own["newestRecords.[]"], rev.Pos(), "RevertToSnapshot gives the provisional version counter back (own account writes: %v)", core.SortedKeys(own))
+		exempt := map[string]string{
+			"AddEventLog#events":            "the in-memory event list has no reader outside package account (checked: GetEvents has no caller); the published trace is the AddEventLog entry, which RevertToSnapshot truncates",
+			"SuicideLog#data.AssetCodeRoot": "only contract accounts self-destruct and only key-holding senders issue assets, so the asset roots of a self-destructing account are already empty",
+			"SuicideLog#data.AssetIdRoot":   "same as AssetCodeRoot",
+			"SuicideLog#assetCode.dirty":    "cache of the (empty) asset-code trie of a contract account",
+			"SuicideLog#assetId.dirty":      "cache of the (empty) asset-id trie of a contract account",
+			"SuicideLog#assetCode.cached":   "cache reset only",
+			"SuicideLog#assetId.cached":     "cache reset only",
+			"SuicideLog#assetCode.trie":     "cache reset only",
+			"SuicideLog#assetId.trie":       "cache reset only",
+		}
+		nT := 0
+		for _, v := range order {
+			lt := lts[v]
+			if lt.undo == nil || len(lt.setter) == 0 {
+				continue
+			}
+			nT++
+			wu := ea.Of(lt.undo, lpBinding())
+			undoW := wu.WritesOn(accName)
+			wr := ea.Of(lt.redo, lpBinding())
+			redoW := wr.WritesOn(accName)
+			for _, u := range append(wu.Unresolved, wr.Unresolved...) {
+				c.Undecided("unresolved/"+lt.name, "effects", lt.undo.Pos(), "interface call not resolved under the LogProcessor binding: %s", u)
+			}
+			for _, st := range lt.setter {
+				do := ea.Of(st, core.Binding{}).WritesOn(accName)
+				for loc := range do {
+					if cacheFill(loc) {
+						continue
+					}
+					key := lt.name + "#" + loc
+					if loc == "newestRecords.[]" {
+						c.Check("undo/"+key, "effects", own[loc], st.Pos(), "the provisional version bumped while journalling %s is restored by RevertToSnapshot", lt.name)
+						continue
+					}
+					if reason, ok := exempt[key]; ok && !undoW[loc] {
+						c.CheckTrivial("undo/"+key, "effects-exempt", true, st.Pos(), "exempt: %s", reason)
+						continue
+					}
+					c.Check("undo/"+key, "effects", undoW[loc], lt.undo.Pos(), "%s writes %s but %s does not (undo writes %v)", shortFn(st), loc, shortFn(lt.undo), core.SortedKeys(undoW))
+					c.Check("redo/"+key, "effects", redoW[loc], lt.redo.Pos(), "%s writes %s but %s does not (redo writes %v)", shortFn(st), loc, shortFn(lt.redo), core.SortedKeys(redoW))
+				}
+			}
+		}
+		c.Floor("types-with-setter-and-undo", nT, 15)
+		// premise of the AddEventLog exemption: nobody reads the event list
+		_, evSites := callersOf(c, c.Method("chain/types.AccountAccessor", "GetEvents"), c.Method(accPkg+".Manager", "GetEvents"))
+		nOut := 0
+		for _, s := range evSites {
+			if core.RelPkg(s.Caller) != accPkg {
+				nOut++
+			}
+		}
+		c.Check("exempt-premise/events-have-no-reader", "who-may-call", nOut == 0, token.NoPos, "GetEvents is called from %d sites outside package account (the un-popped events of a reverted call would become observable)", nOut)
+		// premise of the SuicideLog exemption: SetSuicide is only reached from the self-destruct opcode (and redo/undo)
+		names, _ := callersOf(c, c.Method("chain/types.AccountAccessor", "SetSuicide"))
+		okS := true
+		for _, nme := range names {
+			if !(strings.Contains(nme, "chain/vm.opSuicide") || strings.Contains(nme, accPkg+".")) {
+				okS = false
+			}
+		}
+		c.Check("exempt-premise/SetSuicide-only-from-selfdestruct", "who-may-call", okS && len(names) >= 2, token.NoPos, "callers of SetSuicide: %v", names)
+	})
+
+	c.Clause("C07.4b", "undo restores from what was recorded: every constructor stores OldVal from a read of the account made before the write, and every undo passes a value derived from c.OldVal to the raw setter")
+	c.Run("undo-from-oldval", func() {
+		oldF := c.FieldVar("chain/types.ChangeLog", "OldVal")
+		n := 0
+		for _, v := range order {
+			lt := lts[v]
+			if lt.ctor == nil || lt.undo == nil {
+				continue
+			}
+			// constructor: a store into OldVal whose value is computed from a call on the account accessor, or from a parameter that every
+			// caller computes from a read of the account
+			stored := false
+			for _, b := range lt.ctor.Blocks {
+				for _, in := range b.Instrs {
+					if st, ok := in.(*ssa.Store); ok && core.FieldOf(st.Addr) == oldF && !core.IsNilConst(st.Val) {
+						sl := core.Slice(st.Val)
+						for x := range sl {
+							if ci, isCall := x.(*ssa.Call); isCall && ci.Common().IsInvoke() && namedOfType(ci.Common().Value.Type()) == "AccountAccessor" {
+								stored = true
+							}
+						}
+						if !stored {
+							for pi, prm := range lt.ctor.Params {
+								if !sl[prm] {
+									continue
+								}
+								sites := c.CallSites(lt.ctor.Object().(*types.Func))
+								all := len(sites) > 0
+								for _, site := range sites {
+									if isTestHelper(c, site.Caller) {
+										continue
+									}
+									fromAcc := false
+									for x := range core.Slice(site.Instr.Common().Args[pi]) {
+										if ci, isCall := x.(*ssa.Call); isCall {
+											if o := core.CalleeObj(ci); o != nil {
+												if rn := recvNamed(o); rn != nil && (rn.Name() == "Account" || rn.Name() == "SafeAccount" || rn.Name() == "AccountAccessor") {
+													fromAcc = true
+												}
+											}
+										}
+									}
+									if !fromAcc {
+										all = false
+									}
+								}
+								if all {
+									stored = true
+								}
+							}
+						}
+					}
+				}
+			}
+			// undo: an argument of an accessor setter derives from a load of c.OldVal
+			used := false
+			for _, ci := range core.AllCalls(lt.undo) {
+				if !ci.Common().IsInvoke() || namedOfType(ci.Common().Value.Type()) != "AccountAccessor" {
+					continue
+				}
+				for _, a := range ci.Common().Args {
+					if core.SliceHasField(core.Slice(a), oldF) {
+						used = true
+					}
+				}
+			}
+			n++
+			switch lt.name {
+			case "AddEventLog":
+				c.CheckTrivial("oldval/"+lt.name, "undo-from-oldval", true, lt.ctor.Pos(), "exempt: the log is additive (its undo would pop; see the C07.4 exemption for the event list)")
+			default:
+				c.Check("oldval/"+lt.name, "undo-from-oldval", stored && used, lt.undo.Pos(), "%s: constructor records the old value from the account = %v; undo restores from c.OldVal = %v", lt.name, stored, used)
+			}
+		}
+		c.Floor("types", n, 19)
+	})
+
+	c.Clause("C07.4c", "producers and consumers of log payloads agree on dynamic types: what a constructor can put into OldVal is accepted by the undo's assertion (an undo error is a panic in RevertToSnapshot)")
+	c.Run("payload-types", func() {
+		oldF := c.FieldVar("chain/types.ChangeLog", "OldVal")
+		rev := c.Fn(accPkg + ".LogProcessor.RevertToSnapshot")
+		// present-check: RevertToSnapshot panics on an undo error
+		undoM := c.Method("chain/types.ChangeLog", "Undo")
+		pan := false
+		for _, g := range core.CallsIn(rev, undoM) {
+			for _, t := range core.TestsOf(core.ErrResult(g), core.ErrNonNil) {
+				for _, in := range t.Fail.Instrs {
+					if _, ok := in.(*ssa.Panic); ok {
+						pan = true
+					}
+				}
+			}
+		}
+		c.Check("RevertToSnapshot:undo-error-is-fatal", "present-check", pan, rev.Pos(), "an undo error makes RevertToSnapshot panic, so undo functions must accept every payload shape their constructor produces")
+		n := 0
+		for _, v := range order {
+			lt := lts[v]
+			if lt.ctor == nil || lt.undo == nil {
+				continue
+			}
+			produced := map[string]bool{}
+			for _, b := range lt.ctor.Blocks {
+				for _, in := range b.Instrs {
+					st, ok := in.(*ssa.Store)
+					if !ok || core.FieldOf(st.Addr) != oldF {
+						continue
+					}
+					for _, s := range dynShapes(st.Val, 0) {
+						produced[s] = true
+					}
+				}
+			}
+			if len(produced) == 0 {
+				produced["<nil>"] = true // field left at its zero value
+			}
+			// what the undo accepts: the asserted types of c.OldVal; a nil test of c.OldVal accepts nil; no use at all accepts everything
+			accepted := map[string]bool{}
+			usesOld := false
+			for _, b := range lt.undo.Blocks {
+				for _, in := range b.Instrs {
+					switch x := in.(type) {
+					case *ssa.TypeAssert:
+						if core.SliceHasField(core.Slice(x.X), oldF) {
+							usesOld = true
+							accepted[x.AssertedType.String()] = true
+						}
+					case *ssa.BinOp:
+						if (x.Op == token.EQL || x.Op == token.NEQ) && (core.IsNilConst(x.X) || core.IsNilConst(x.Y)) {
+							other := x.X
+							if core.IsNilConst(other) {
+								other = x.Y
+							}
+							if core.SliceHasField(core.Slice(other), oldF) && types.IsInterface(other.Type()) {
+								usesOld = true
+								accepted["<nil>"] = true
+							}
+						}
+					}
+				}
+			}
+			n++
+			ok := true
+			var missing []string
+			if usesOld {
+				for s := range produced {
+					if !accepted[s] {
+						ok = false
+						missing = append(missing, s)
+					}
+				}
+			}
+			sort.Strings(missing)
+			c.Check("payload/"+lt.name, "payload-types", ok, lt.undo.Pos(), "%s: constructor may store %v in OldVal, undo accepts %v; not accepted: %v", lt.name, core.SortedKeys(produced), core.SortedKeys(accepted), missing)
+		}
+		c.Floor("types", n, 19)
+	})
+
+	c.Clause("C07.5", "snapshot/revert pairing: wherever execution takes a snapshot, every path on which the guarded step failed passes RevertToSnapshot with that same snapshot before the function returns")
+	c.Run("pairing", func() {
+		snapM := []*types.Func{c.Method(accPkg+".Manager", "Snapshot"), c.Method("chain/vm.AccountManager", "Snapshot")}
+		revM := []*types.Func{c.Method(accPkg+".Manager", "RevertToSnapshot"), c.Method("chain/vm.AccountManager", "RevertToSnapshot")}
+		runFn := c.Fn("chain/vm.run")
+		applyTx := c.Method("chain/transaction.TxProcessor", "applyTx")
+		journalling := map[string]bool{}
+		for _, lt := range lts {
+			for _, st := range lt.setter {
+				journalling[st.Name()] = true
+			}
+		}
+		isStep := func(ci ssa.CallInstruction) bool {
+			if core.StaticFn(ci) == runFn {
+				return true
+			}
+			o := core.CalleeObj(ci)
+			if o == nil {
+				return false
+			}
+			if core.SameFamily(o, applyTx) {
+				return true
+			}
+			if rn := recvNamed(o); rn != nil && rn.Name() == "AccountAccessor" && journalling[o.Name()] {
+				return true
+			}
+			return false
+		}
+		n := 0
+		for _, fn := range c.SrcFuncs {
+			rel := core.RelPkg(fn)
+			if (rel != "chain/vm" && rel != "chain/transaction") || isTestHelper(c, fn) {
+				continue
+			}
+			snaps := core.CallsIn(fn, snapM...)
+			if len(snaps) == 0 {
+				continue
+			}
+			n++
+			checkPairing(c, fn, snaps, core.CallsIn(fn, revM...), isStep)
+		}
+		c.Floor("functions-taking-snapshots", n, 7)
+	})
+
+	c.Clause("C07.6", "redo path: Manager.RebuildAll resets to the parent state, skips exactly the four root log types and applies Redo to every other log, heeding its error")
+	c.Run("rebuild", func() {
+		fn := c.Fn(accPkg + ".Manager.RebuildAll")
+		reset := core.CallsIn(fn, c.Method(accPkg+".Manager", "Reset"))
+		redo := core.CallsIn(fn, c.Method("chain/types.ChangeLog", "Redo"))
+		ok := len(reset) == 1 && len(redo) == 1
+		if ok {
+			ok = core.Dominates(reset[0], redo[0]) && core.SliceHasCall(core.Slice(reset[0].Common().Args[1]), c.Method("chain/types.Block", "ParentHash"))
+		}
+		c.Check("RebuildAll:Reset(ParentHash)≺Redo", "order", ok, fn.Pos(), "the replay starts from the parent's state")
+		if len(redo) == 1 {
+			// the skip tests: comparisons of cl.LogType with constants; the set of constants is exactly the four root types
+			ltF := c.FieldVar("chain/types.ChangeLog", "LogType")
+			skipped := map[int64]bool{}
+			for _, b := range fn.Blocks {
+				for _, in := range b.Instrs {
+					bo, isB := in.(*ssa.BinOp)
+					if !isB || bo.Op != token.EQL {
+						continue
+					}
+					var k *ssa.Const
+					var other ssa.Value
+					if kc, isC := bo.Y.(*ssa.Const); isC {
+						k, other = kc, bo.X
+					} else if kc, isC := bo.X.(*ssa.Const); isC {
+						k, other = kc, bo.Y
+					}
+					if k == nil || !core.SliceHasField(core.Slice(other), ltF) {
+						continue
+					}
+					v, _ := constant.Int64Val(constant.ToInt(k.Value))
+					skipped[v] = true
+				}
+			}
+			want := map[string]bool{"StorageRootLog": true, "AssetCodeRootLog": true, "AssetIdRootLog": true, "EquityRootLog": true}
+			okSet := len(skipped) == 4
+			for v := range skipped {
+				if lt := lts[v]; lt == nil || !want[lt.name] {
+					okSet = false
+				}
+			}
+			c.Check("RebuildAll:skips-exactly-root-logs", "registry", okSet, fn.Pos(), "the replay skips the four root logs (recomputed by Finalise) and nothing else: %v", skipped)
+			h := false
+			ev := core.ErrResult(redo[0])
+			for _, t := range core.TestsOf(ev, core.ErrNonNil) {
+				all := true
+				any := false
+				for _, ret := range core.Returns(fn) {
+					if t.Fail == ret.Block() || core.CanReach(t.Fail, ret.Block(), redo[0].Block()) {
+						any = true
+						if core.ClassifyReturn(ret, core.Derived(ev), nil) != core.RetFailure {
+							all = false
+						}
+					}
+				}
+				if core.CanReach(t.Fail, redo[0].Block()) {
+					all = false // continues with the next log
+				}
+				if all && any {
+					h = true
+				}
+			}
+			c.Check("RebuildAll→Redo", "heeded-guard", h, redo[0].Pos(), "a failing redo aborts the replay with that error")
+		}
+	})
+
+	c.Clause("C07.7", "a dirty flag never outlives its payload: Account.Save stores contract code only when there is code, and clears the flag either way")
+	c.Run("dirty-flag", func() {
+		save := c.Fn(accPkg + ".Account.Save")
+		scc := core.CallsIn(save, c.Method("store/protocol.ChainDB", "SetContractCode"))
+		codeF := c.FieldVar(accPkg+".Account", "code")
+		dirtyF := c.FieldVar(accPkg+".Account", "codeIsDirty")
+		ok := len(scc) == 1
+		if ok {
+			ok = false
+			for _, cg := range lenGuards(save, codeF) {
+				if cg.guards(scc[0]) {
+					ok = true
+				}
+			}
+		}
+		c.Check("Account.Save:SetContractCode-needs-code", "guarded-action", ok, save.Pos(), "SetContractCode (which rejects empty values and fails the whole block) is reached only with non-empty code")
+		// the flag is cleared on every path through the dirty branch that returns nil
+		cleared := false
+		for _, b := range save.Blocks {
+			for _, in := range b.Instrs {
+				if st, isSt := in.(*ssa.Store); isSt && core.FieldOf(st.Addr) == dirtyF {
+					if bv, isC := core.BoolConst(st.Val); isC && !bv {
+						cleared = true
+						// every success return is either not reachable from the dirty test's true edge or passes this store
+						for _, ifb := range save.Blocks {
+							ifi, isIf := ifb.Instrs[len(ifb.Instrs)-1].(*ssa.If)
+							if !isIf || !core.SliceHasField(core.Slice(ifi.Cond), dirtyF) {
+								continue
+							}
+							for _, r := range core.Returns(save) {
+								if core.ClassifyReturn(r, nil, nil) == core.RetFailure {
+									continue
+								}
+								if core.CanReach(ifb.Succs[0], r.Block(), b) && r.Block() != b {
+									cleared = false
+								}
+							}
+						}
+					}
+				}
+			}
+		}
+		c.Check("Account.Save:clears-dirty-flag", "paired-effect", cleared, save.Pos(), "every successful Save of an account with the dirty flag set clears it")
+	})
+
+	c.NotDecidedf("that undo restores the same VALUE (only that it writes the same locations from the recorded OldVal); deep-copy aliasing of OldVal; nesting/interleaving behaviour of snapshots as histories; equality of replayed and executed state")
+}
+
+func recvNamed(f *types.Func) *types.TypeName {
+	if f == nil {
+		return nil
+	}
+	r := f.Type().(*types.Signature).Recv()
+	if r == nil {
+		return nil
+	}
+	t := r.Type()
+	if p, ok := t.(*types.Pointer); ok {
+		t = p.Elem()
+	}
+	if n, ok := t.(*types.Named); ok {
+		return n.Obj()
+	}
+	return nil
+}
+
+func namedPtr(t types.Type) string {
+	if p, ok := t.(*types.Pointer); ok {
+		t = p.Elem()
+	}
+	if n, ok := t.(*types.Named); ok {
+		return n.Obj().Name()
+	}
+	return ""
+}
+
+func namedOfType(t types.Type) string {
+	if n, ok := t.(*types.Named); ok {
+		return n.Obj().Name()
+	}
+	return ""
+}
+
+// dynShapes lists the dynamic types an interface-typed value can hold: operand types of MakeInterface, "<nil>" for the nil constant.
+func dynShapes(v ssa.Value, depth int) []string {
+	if depth > 5 {
+		return []string{"?"}
+	}
+	switch x := v.(type) {
+	case *ssa.MakeInterface:
+		return []string{x.X.Type().String()}
+	case *ssa.Const:
+		if x.Value == nil {
+			return []string{"<nil>"}
+		}
+	case *ssa.Phi:
+		var out []string
+		for _, e := range x.Edges {
+			out = append(out, dynShapes(e, depth+1)...)
+		}
+		return out
+	case *ssa.UnOp:
+		if al, ok := x.X.(*ssa.Alloc); ok && x.Op == token.MUL && al.Referrers() != nil {
+			var out []string
+			for _, r := range *al.Referrers() {
+				if st, ok := r.(*ssa.Store); ok && st.Addr == al {
+					out = append(out, dynShapes(st.Val, depth+1)...)
+				}
+			}
+			if len(out) == 0 {
+				out = []string{"<nil>"}
+			}
+			return out
+		}
+	case *ssa.ChangeInterface:
+		return dynShapes(x.X, depth+1)
+	}
+	return []string{"?" + v.Type().String()}
+}
+
+// lenGuards: tests `len(field) > 0`-like conditions whose false edge skips an action.
+type lenGuard struct {
+	ifi *ssa.If
+	okB *ssa.BasicBlock
+	bad *ssa.BasicBlock
+}
+
+func (g lenGuard) guards(action ssa.Instruction) bool {
+	b := g.ifi.Block()
+	if !b.Dominates(action.Block()) || b == action.Block() {
+		return false
+	}
+	return !core.CanReach(g.bad, action.Block(), b)
+}
+
+func lenGuards(fn *ssa.Function, field *types.Var) []lenGuard {
+	var out []lenGuard
+	for _, b := range fn.Blocks {
+		ifi, ok := b.Instrs[len(b.Instrs)-1].(*ssa.If)
+		if !ok {
+			continue
+		}
+		bo, ok := ifi.Cond.(*ssa.BinOp)
+		if !ok {
+			continue
+		}
+		sl := core.Slice(bo)
+		if !core.SliceHasField(sl, field) {
+			continue
+		}
+		hasLen := false
+		for v := range sl {
+			if ci, isCall := v.(*ssa.Call); isCall {
+				if bi, isB := ci.Common().Value.(*ssa.Builtin); isB && bi.Name() == "len" {
+					hasLen = true
+				}
+			}
+		}
+		if !hasLen {
+			continue
+		}
+		// determine polarity: cond true means "non-empty" for GTR 0 / NEQ 0; "empty" for EQL 0 / LEQ 0
+		k, isK := bo.Y.(*ssa.Const)
+		if !isK {
+			continue
+		}
+		kv, _ := constant.Int64Val(constant.ToInt(k.Value))
+		switch {
+		case (bo.Op == token.GTR && kv == 0) || (bo.Op == token.NEQ && kv == 0) || (bo.Op == token.GEQ && kv == 1):
+			out = append(out, lenGuard{ifi, b.Succs[0], b.Succs[1]})
+		case (bo.Op == token.EQL && kv == 0) || (bo.Op == token.LEQ && kv == 0) || (bo.Op == token.LSS && kv == 1):
+			out = append(out, lenGuard{ifi, b.Succs[1], b.Succs[0]})
+		}
+	}
+	return out
+}
+
+// checkPairing: for each snapshot taken in fn, every call whose error is tested after the snapshot and whose failure edge leads to a
+// return must pass RevertToSnapshot(snapshot) on all paths from that edge to the return — for the calls in `guarded` position:
+// the execution step (a call that itself runs code: run, applyTx, …) identified as the calls dominated by the snapshot whose failing edge
+// reaches at least one revert. Additionally at least one revert with the same snapshot value must exist per snapshot.
+func checkPairing(c *core.Ctx, fn *ssa.Function, snaps, revs []ssa.CallInstruction, isStep func(ssa.CallInstruction) bool) {
+	name := shortFn(fn)
+	for i, s := range snaps {
+		key := name + "#snapshot" + string(rune('a'+i))
+		sv := s.Value()
+		d := core.Derived(sv)
+		var mine []ssa.CallInstruction
+		for _, r := range revs {
+			a := r.Common().Args
+			if len(a) > 0 && (d[a[len(a)-1]] || core.Slice(a[len(a)-1])[sv]) {
+				mine = append(mine, r)
+			}
+		}
+		if !c.Check(key+":has-revert", "pairing", len(mine) >= 1, s.Pos(), "%s takes a snapshot and reverts to that same snapshot somewhere (%d reverts use it)", name, len(mine)) {
+			continue
+		}
+		var revBlocks []*ssa.BasicBlock
+		for _, r := range mine {
+			revBlocks = append(revBlocks, r.Block())
+		}
+		// guarded steps: the execution steps (run / applyTx) and the journalling setters that can fail, after the snapshot
+		steps := 0
+		for _, ci := range core.AllCalls(fn) {
+			if ci == s || !core.Dominates(s, ci) || !isStep(ci) {
+				continue
+			}
+			ev := core.ErrResult(ci)
+			if ev == nil {
+				continue
+			}
+			callee := "call"
+			if o := core.CalleeObj(ci); o != nil {
+				callee = objName(o)
+			} else if sf := core.StaticFn(ci); sf != nil {
+				callee = sf.Name()
+			}
+			tests := core.TestsOf(ev, core.ErrNonNil)
+			if len(tests) == 0 {
+				continue // error handed on untested: the caller's pairing decides
+			}
+			steps++
+			ok := true
+			avoid := map[*ssa.BasicBlock]bool{}
+			for _, rb := range revBlocks {
+				avoid[rb] = true
+			}
+			for _, t := range tests {
+				r := core.ReachKnowingNonNil(t.If.Block(), t.Fail, core.Derived(ev), avoid)
+				for _, ret := range core.Returns(fn) {
+					if r[ret.Block()] {
+						ok = false
+					}
+				}
+				if r[ci.Block()] {
+					ok = false // loops to the next iteration without reverting
+				}
+			}
+			c.Check(key+":"+callee+"-failure→revert", "pairing", ok, ci.Pos(), "in %s every path from a failure of %s to a return (or to the next iteration) passes RevertToSnapshot(snapshot)", name, callee)
+		}
+		c.Check(key+":guards-a-step", "pairing", steps >= 1, s.Pos(), "the snapshot of %s protects at least one failing step (%d found)", name, steps)
+	}
 }
